@@ -1,1 +1,336 @@
 // Kani contract harnesses for /repo/arrow-buffer/src/util/bit_iterator.rs (child module: sees private items via super::)
+//
+// Specification side (C19, C03 layer 0): a mask is the boolean sequence b_i = bit(buf, off+i),
+// 0 <= i < len, with bit(s, i) = (s[i/8] >> (i%8)) & 1 (spec::bit).
+// Iterator contracts are written with a universally quantified probe position t (a symbolic
+// value): "t is yielded  <=>  t < len && b_t" together with "strictly ascending, every item in
+// range" pins the yielded sequence to exactly the ascending set positions, without a
+// specification-side search loop (measured in the design phase: a lock-step "find the next set
+// bit" loop did not finish in 4.5 min).
+use super::*;
+#[path = "/verif/kani/support/spec.rs"]
+mod spec;
+use spec::*;
+
+// ------------------------------------------------------------------------------------------------
+// BitIterator
+// ------------------------------------------------------------------------------------------------
+
+// Contract (C19): BitIterator::new(buf, off, len) on an 8-byte buffer, EVERY off, len with
+// off+len <= 64, followed by EVERY sequence of three operations drawn from
+// {next, next_back, nth(n), nth_back(n)} with EVERY usize n. Model: the remaining items are
+// b_f .. b_(e-1) (initially f=0, e=len):
+//   next()      = Some(b_f), f+1            | None if f == e
+//   next_back() = Some(b_(e-1)), e-1        | None if f == e
+//   nth(n)      = Some(b_(f+n)), f+n+1      | None and exhausted if n >= e-f (also when f+n overflows)
+//   nth_back(n) = Some(b_(e-1-n)), e-n-1    | None and exhausted if n >= e-f
+// and after every step len() == e-f, size_hint() == (e-f, Some(e-f)); finally count() == e-f and
+// last() == Some(b_(e-1)) (None when empty). No bit outside [off+f, off+e) influences any result.
+// @unit name=bit_iterator_ops props=C19,C03 kind=bounded bound=buffer=8_bytes_all_offsets_and_lengths_3_operations timeout=600
+//       fns=BitIterator::new,BitIterator::next,BitIterator::next_back,BitIterator::nth,BitIterator::nth_back,BitIterator::size_hint,BitIterator::count,BitIterator::last
+#[kani::proof]
+#[kani::unwind(5)]
+#[kani::stub(alloc::fmt::format, stub_format)]
+fn bit_iterator_ops() {
+    let d: [u8; 8] = kani::any();
+    let off: usize = kani::any();
+    let len: usize = kani::any();
+    kani::assume(off <= 64 && len <= 64 - off);
+    let mut it = BitIterator::new(&d, off, len);
+    let (mut f, mut e) = (0usize, len);
+    assert!(it.len() == len && it.size_hint() == (len, Some(len)));
+    let mut step = 0;
+    let (mut some_front, mut some_back, mut none_seen) = (false, false, false);
+    while step < 3 {
+        let op: u8 = kani::any();
+        let n: usize = kani::any();
+        let r;
+        let want;
+        if op == 0 {
+            r = it.next();
+            want = if f < e { f += 1; Some(bit(&d, off + f - 1)) } else { None };
+            some_front |= want.is_some();
+        } else if op == 1 {
+            r = it.next_back();
+            want = if f < e { e -= 1; Some(bit(&d, off + e)) } else { None };
+            some_back |= want.is_some();
+        } else if op == 2 {
+            r = it.nth(n);
+            want = if n < e - f { f += n + 1; Some(bit(&d, off + f - 1)) } else { f = e; None };
+            some_front |= want.is_some() && n > 0;
+        } else {
+            r = it.nth_back(n);
+            want = if n < e - f { e -= n + 1; Some(bit(&d, off + e)) } else { f = e; None };
+            some_back |= want.is_some() && n > 0;
+        }
+        none_seen |= want.is_none();
+        assert!(r == want);
+        assert!(it.len() == e - f && it.size_hint() == (e - f, Some(e - f)));
+        step += 1;
+    }
+    assert!(it.clone().count() == e - f);
+    assert!(it.clone().last() == if f < e { Some(bit(&d, off + e - 1)) } else { None });
+    // the remaining items are still b_f .. b_(e-1)
+    let mut rest = it.clone();
+    assert!(rest.next() == if f < e { Some(bit(&d, off + f)) } else { None });
+    kani::cover!(some_front && some_back && e - f > 3);
+    kani::cover!(none_seen && len > 0);
+    kani::cover!(len == 64 && e - f == 61);
+    kani::cover!(f < e && it.clone().last() == Some(true) && it.clone().next() == Some(false));
+}
+
+// Contract (C19): BitIterator::new panics (rejects) whenever ceil((off+len)/8) > len(buf),
+// including usize overflow of off+len: if it returns, the range fits and len() == len.
+// @unit name=bit_iterator_new_rejects props=C19 kind=complete fns=BitIterator::new mayreject=1 timeout=240
+#[kani::proof]
+#[kani::stub(alloc::fmt::format, stub_format)]
+fn bit_iterator_new_rejects() {
+    let d: [u8; 4] = kani::any();
+    let n: usize = kani::any();
+    kani::assume(n <= 4);
+    let off: usize = kani::any();
+    let len: usize = kani::any();
+    let it = BitIterator::new(&d[..n], off, len);
+    assert!(off <= 8 * n && len <= 8 * n - off);
+    assert!(it.len() == len);
+    kani::cover!(len == 32);
+    kani::cover!(len == 0 && off == 8 * n && n == 4);
+}
+
+// Contract (C19): BitIterator::max() on the items still to come (after a symbolic number of
+// next()/next_back() steps): None if there are none, Some(true) if some remaining b_i is set,
+// Some(false) otherwise - bits in front of / behind the remaining range (also those in the same
+// byte) do not count. 3-byte buffer, EVERY off, len; "some bit of [a, b) is set" is written on the
+// integer view of the buffer (word & range mask != 0).
+// @unit name=bit_iterator_max props=C19 kind=bounded bound=buffer=3_bytes_all_offsets_and_lengths timeout=600
+//       fns=BitIterator::max,BitIndexIterator::new,BitIndexIterator::next
+#[kani::proof]
+#[kani::unwind(10)]
+#[kani::stub(alloc::fmt::format, stub_format)]
+fn bit_iterator_max() {
+    let d: [u8; 3] = kani::any();
+    let off: usize = kani::any();
+    let len: usize = kani::any();
+    kani::assume(off <= 24 && len <= 24 - off);
+    let mut it = BitIterator::new(&d, off, len);
+    let (mut f, mut e) = (0usize, len);
+    if kani::any() && f < e {
+        it.next();
+        f += 1;
+    }
+    if kani::any() && f < e {
+        it.next_back();
+        e -= 1;
+    }
+    let w = u32::from_le_bytes([d[0], d[1], d[2], 0]);
+    let mask = (((1u64 << (off + e)) - 1) & !((1u64 << (off + f)) - 1)) as u32;
+    let want = if f == e { None } else { Some(w & mask != 0) };
+    assert!(it.max() == want);
+    kani::cover!(want == Some(false) && w != 0 && f == 1 && e == len - 1);
+    kani::cover!(want == Some(true) && (w & mask).count_ones() == 1);
+    kani::cover!(want.is_none() && len == 2);
+}
+
+// ------------------------------------------------------------------------------------------------
+// BitIndexIterator, BitIndexU32Iterator, BitSliceIterator at concrete (offset, length) shapes
+// (grid rule: the chunk structure depends on the shape; contents are fully symbolic)
+// ------------------------------------------------------------------------------------------------
+
+// Straight-line repetition (no harness loop): the harness-wide unwind bound can then stay at the
+// small number the iterator's own chunk loop needs (<= 3 iterations for <= 16 bytes), instead of
+// LEN+2, which would unwind that inner loop LEN+2 times in each of the LEN+1 calls (measured: the
+// looped form of the 20-bit unit did not finish in 25 min under load).
+macro_rules! rep {
+    (1, $e:expr) => { $e; };
+    (2, $e:expr) => { $e; $e; };
+    (4, $e:expr) => { rep!(2, $e); rep!(2, $e); };
+    (8, $e:expr) => { rep!(4, $e); rep!(4, $e); };
+    (16, $e:expr) => { rep!(8, $e); rep!(8, $e); };
+    (32, $e:expr) => { rep!(16, $e); rep!(16, $e); };
+    (64, $e:expr) => { rep!(32, $e); rep!(32, $e); };
+    // the call counts used below
+    (6, $e:expr) => { rep!(4, $e); rep!(2, $e); };
+    (11, $e:expr) => { rep!(8, $e); rep!(2, $e); rep!(1, $e); };
+    (13, $e:expr) => { rep!(8, $e); rep!(4, $e); rep!(1, $e); };
+    (21, $e:expr) => { rep!(16, $e); rep!(4, $e); rep!(1, $e); };
+    (25, $e:expr) => { rep!(16, $e); rep!(8, $e); rep!(1, $e); };
+    (36, $e:expr) => { rep!(32, $e); rep!(4, $e); };
+    (71, $e:expr) => { rep!(64, $e); rep!(4, $e); rep!(2, $e); rep!(1, $e); };
+}
+
+// Contract (C19, C03 layer 0): BitIndexIterator::new(buf, OFF, LEN) yields, for EVERY content of
+// buf: only positions y < LEN with b_y set, in strictly ascending order, and EVERY set position
+// (probe t: t is yielded <=> t < LEN && b_t); it ends with None after at most LEN items. Hence
+// the yielded sequence is exactly the ascending set positions of the mask at bit offset OFF; set
+// bits of buf in front of OFF or behind OFF+LEN (the buffer has slack on both sides) are never
+// yielded. BitIndexU32Iterator: the same positions as u32.
+macro_rules! index_iter_unit {
+    ($name:ident, $iter:ident, $off:expr, $len:expr, $nbytes:expr, $calls:tt) => {
+        #[kani::proof]
+        #[kani::unwind(5)]
+        #[kani::stub(alloc::fmt::format, stub_format)]
+        #[allow(trivial_numeric_casts)]
+        fn $name() {
+            const OFF: usize = $off;
+            const LEN: usize = $len;
+            let d: [u8; $nbytes] = kani::any();
+            let t: usize = kani::any();
+            let mut it = $iter::new(&d, OFF, LEN);
+            let (mut seen, mut done, mut count) = (false, false, 0usize);
+            let mut prev: Option<usize> = None;
+            // LEN+1 calls of next(): at most LEN items, then None
+            let mut step = || {
+                if !done {
+                    match it.next() {
+                        Some(y) => {
+                            let y = y as usize;
+                            assert!(y < LEN && bit(&d, OFF + y));
+                            if let Some(p) = prev {
+                                assert!(p < y);
+                            }
+                            prev = Some(y);
+                            seen |= y == t;
+                            count += 1;
+                        }
+                        None => done = true,
+                    }
+                }
+            };
+            rep!($calls, step());
+            assert!(done);
+            assert!(seen == (t < LEN && bit(&d, OFF + t)));
+            kani::cover!(count == LEN);
+            kani::cover!(count == 0 && (OFF == 0 || d[0] & 1 == 1) && (OFF + LEN == 8 * $nbytes || d[$nbytes - 1] >> 7 == 1));
+            kani::cover!(count == 2 && seen && t == LEN - 1);
+        }
+    };
+}
+// quick: masks <= 24 bits
+// (not yet run to completion under load: thorough until confirmed)
+// @unit name=bit_index_iter_0_24 props=C19,C03 kind=bounded tier=thorough bound=mask=24_bits_at_offset_0 fns=BitIndexIterator::new,BitIndexIterator::next timeout=3000 mem=5
+index_iter_unit!(bit_index_iter_0_24, BitIndexIterator, 0, 24, 3, 25);
+// @unit name=bit_index_iter_5_20 props=C19,C03 kind=bounded bound=mask=20_bits_at_offset_5 fns=BitIndexIterator::new,BitIndexIterator::next timeout=3000 mem=5
+index_iter_unit!(bit_index_iter_5_20, BitIndexIterator, 5, 20, 4, 21);
+// (not yet run to completion under load: thorough until confirmed)
+// @unit name=bit_index_iter_59_10 props=C19,C03 kind=bounded tier=thorough bound=mask=10_bits_at_offset_59_(crosses_the_64-bit_edge) fns=BitIndexIterator::new,BitIndexIterator::next timeout=3000 mem=5
+index_iter_unit!(bit_index_iter_59_10, BitIndexIterator, 59, 10, 9, 11);
+// (not yet run to completion under load: thorough until confirmed)
+// @unit name=bit_index_u32_iter_5_20 props=C19,C03 kind=bounded tier=thorough bound=mask=20_bits_at_offset_5 fns=BitIndexU32Iterator::new,BitIndexU32Iterator::next timeout=3000 mem=5
+index_iter_unit!(bit_index_u32_iter_5_20, BitIndexU32Iterator, 5, 20, 4, 21);
+// (not yet run to completion under load: thorough until confirmed)
+// @unit name=bit_index_u32_iter_59_10 props=C19,C03 kind=bounded tier=thorough bound=mask=10_bits_at_offset_59_(crosses_the_64-bit_edge) fns=BitIndexU32Iterator::new,BitIndexU32Iterator::next timeout=3000 mem=5
+index_iter_unit!(bit_index_u32_iter_59_10, BitIndexU32Iterator, 59, 10, 9, 11);
+// thorough: 70-bit mask at offset 3 (two words: prefix + suffix), every content
+// @unit name=bit_index_iter_3_70 props=C19,C03 kind=bounded bound=mask=70_bits_at_offset_3 fns=BitIndexIterator::new,BitIndexIterator::next tier=thorough timeout=3000 mem=6
+index_iter_unit!(bit_index_iter_3_70, BitIndexIterator, 3, 70, 10, 71);
+// @unit name=bit_index_u32_iter_3_70 props=C19,C03 kind=bounded bound=mask=70_bits_at_offset_3 fns=BitIndexU32Iterator::new,BitIndexU32Iterator::next tier=thorough timeout=3000 mem=6
+index_iter_unit!(bit_index_u32_iter_3_70, BitIndexU32Iterator, 3, 70, 10, 71);
+
+// Contract (C19, C03 layer 0): BitSliceIterator::new(buf, OFF, LEN) yields, for EVERY content of
+// buf, runs (s, e) with s < e <= LEN, each run starting strictly behind the end of the previous
+// one (so two runs are separated by at least one position), and a position t lies in some yielded
+// run <=> t < LEN && b_t. Hence the runs are exactly the maximal runs of set bits, ascending; it
+// ends with None after at most ceil(LEN/2) runs. Set bits of buf outside [OFF, OFF+LEN) never
+// extend a run.
+macro_rules! slice_iter_unit {
+    ($name:ident, $off:expr, $len:expr, $nbytes:expr, $calls:tt) => {
+        #[kani::proof]
+        #[kani::unwind(5)]
+        #[kani::stub(alloc::fmt::format, stub_format)]
+        fn $name() {
+            const OFF: usize = $off;
+            const LEN: usize = $len;
+            let d: [u8; $nbytes] = kani::any();
+            let t: usize = kani::any();
+            let mut it = BitSliceIterator::new(&d, OFF, LEN);
+            let (mut inside, mut done, mut count) = (false, false, 0usize);
+            let mut prev_end: Option<usize> = None;
+            // ceil(LEN/2)+1 calls of next(): at most ceil(LEN/2) runs, then None
+            let mut step = || {
+                if !done {
+                    match it.next() {
+                        Some((s, e)) => {
+                            assert!(s < e && e <= LEN);
+                            if let Some(p) = prev_end {
+                                assert!(p < s);
+                            }
+                            prev_end = Some(e);
+                            inside |= s <= t && t < e;
+                            count += 1;
+                        }
+                        None => done = true,
+                    }
+                }
+            };
+            rep!($calls, step());
+            assert!(done);
+            assert!(inside == (t < LEN && bit(&d, OFF + t)));
+            kani::cover!(count == (LEN + 1) / 2);
+            kani::cover!(count == 1 && prev_end == Some(LEN) && inside && t == 0 && (OFF == 0 || d[0] & 1 == 0));
+            kani::cover!(count == 0 && (OFF == 0 || d[0] & 1 == 1) && (OFF + LEN == 8 * $nbytes || d[$nbytes - 1] >> 7 == 1));
+        }
+    };
+}
+// (not yet run to completion under load: thorough until confirmed)
+// @unit name=bit_slice_iter_0_24 props=C19,C03 kind=bounded tier=thorough bound=mask=24_bits_at_offset_0 fns=BitSliceIterator::new,BitSliceIterator::next,BitSliceIterator::advance_to_set_bit timeout=3000 mem=5
+slice_iter_unit!(bit_slice_iter_0_24, 0, 24, 3, 13);
+// @unit name=bit_slice_iter_5_20 props=C19,C03 kind=bounded bound=mask=20_bits_at_offset_5 fns=BitSliceIterator::new,BitSliceIterator::next,BitSliceIterator::advance_to_set_bit timeout=3000 mem=5
+slice_iter_unit!(bit_slice_iter_5_20, 5, 20, 4, 11);
+// (not yet run to completion under load: thorough until confirmed)
+// @unit name=bit_slice_iter_59_10 props=C19,C03 kind=bounded tier=thorough bound=mask=10_bits_at_offset_59_(a_run_may_cross_the_64-bit_edge) fns=BitSliceIterator::new,BitSliceIterator::next,BitSliceIterator::advance_to_set_bit timeout=3000 mem=5
+slice_iter_unit!(bit_slice_iter_59_10, 59, 10, 9, 6);
+// @unit name=bit_slice_iter_3_70 props=C19,C03 kind=bounded bound=mask=70_bits_at_offset_3 fns=BitSliceIterator::new,BitSliceIterator::next,BitSliceIterator::advance_to_set_bit tier=thorough timeout=3000 mem=6
+slice_iter_unit!(bit_slice_iter_3_70, 3, 70, 10, 36);
+
+// ------------------------------------------------------------------------------------------------
+// try_for_each_valid_idx
+// ------------------------------------------------------------------------------------------------
+
+// Contract (C19): try_for_each_valid_idx(len, off, null_count, nulls, f) with len = 10 at offset 3
+// of a 2-byte validity mask (every content), null_count = the number of unset b_i (the caller's
+// duty) and f = "record the index; fail with Err at a symbolic index": f is called on exactly the
+// positions with b_i set, ascending (all of 0..len when null_count == 0, none when
+// null_count == len), up to and including the first position where f fails; the result is that
+// Err, or Ok when f never fails. Probe formulation as for BitIndexIterator.
+// (not yet run to completion under load: thorough until confirmed)
+// @unit name=try_for_each_valid_idx_3_10 props=C19 kind=bounded bound=len=10_offset=3 fns=try_for_each_valid_idx tier=thorough timeout=3000
+#[kani::proof]
+#[kani::unwind(13)]
+#[kani::stub(alloc::fmt::format, stub_format)]
+fn try_for_each_valid_idx_3_10() {
+    const OFF: usize = 3;
+    const LEN: usize = 10;
+    let d: [u8; 2] = kani::any();
+    let mut nulls = 0usize;
+    let mut i = 0;
+    while i < LEN {
+        if !bit(&d, OFF + i) {
+            nulls += 1;
+        }
+        i += 1;
+    }
+    let fail_at: usize = kani::any();
+    let t: usize = kani::any();
+    let (mut seen, mut prev, mut failed) = (false, None::<usize>, false);
+    let r = try_for_each_valid_idx(LEN, OFF, nulls, Some(&d[..]), |y| {
+        assert!(!failed); // f is not called again after it failed
+        assert!(y < LEN && bit(&d, OFF + y));
+        if let Some(p) = prev {
+            assert!(p < y);
+        }
+        prev = Some(y);
+        seen |= y == t;
+        if y == fail_at {
+            failed = true;
+            Err(y)
+        } else {
+            Ok(())
+        }
+    });
+    let fails = fail_at < LEN && bit(&d, OFF + fail_at);
+    assert!(r == if fails { Err(fail_at) } else { Ok(()) });
+    assert!(seen == (t < LEN && bit(&d, OFF + t) && (!fails || t <= fail_at)));
+    kani::cover!(nulls == 0 && !fails);
+    kani::cover!(nulls == LEN);
+    kani::cover!(nulls == 4 && fails && seen && t < fail_at);
+}
